@@ -15,6 +15,7 @@ func init() {
 			"T4 every Proxies entry is a struct {Object interface{}; M_ func(interface{}, params...) results} that implements the interface and whose methods forward receiver.Object then every parameter in order; " +
 			"T5 every Wrappers name is a promoted method (selection path > 1) of the named type in Go's method set; T6 Name equals the package name; U/A2 the per-kind readers and places of imported variables in fast/import.go are uniform across kinds (each reads the live variable with the accessor of its kind). " +
 			"T6o loadBinds classifies a table entry as a variable (addressable and settable) before it considers it a constant. " +
+			"Counted, no verdict: untyped constants bound in a table that has no Untypeds entry for them (the darwin syscall tables have none at all): they are imported as typed constants of their default type; the property speaks of the entries the tables have. " +
 			"Not decided: behaviour of the bound functions, completeness of a table with respect to newer toolchains, generated-file freshness.",
 		Assumptions: []string{"go/types view of the installed standard library (export data) is the oracle", "go/constant arithmetic", "reflect.ValueOf / TypeOf / Elem behave as documented"},
 		Rules: []func(*Ctx){ruleImportTables, ruleImportTablesFloors, func(c *Ctx) {
